@@ -52,10 +52,13 @@ pub fn until_next_unindented(input: &str, at_least_until: usize, fallback_len: u
         prev_was_newline = ch == '\n';
     }
 
-    // No match found, use fallback
-    let mut fallback_len = input.len().min(fallback_len);
+    // No match found, use fallback; the excerpt always reaches the line of the error
+    let mut fallback_len = input.len().min(fallback_len.max(at_least_until));
     while !input.is_char_boundary(fallback_len) {
         fallback_len -= 1;
+    }
+    if fallback_len >= at_least_until {
+        fallback_len += input[fallback_len..].find('\n').unwrap_or(input.len() - fallback_len);
     }
     // leading line breaks are kept: the caller numbers the excerpt's lines from its start
     input[..fallback_len].trim_end()
